@@ -29,6 +29,34 @@ DET = ['shift_flat', 'rename_idx_flat', 'rename_pop_flat', 'shift_2d', 'rename_i
 RND = ['mcmc', 'mcmc_obj', 'msm_wt', 'msm_wt_obj', 'msm_paths_obj']
 
 
+def static_obligations():
+    """syntactic side condition (harness/argwrites.py) on EVERY function of the package in the working tree: no function writes through one of its
+    parameters (element / slice assignment, in-place operator, in-place method or numpy function on a name that may still alias a parameter).
+    It is what lets the translator treat arrays as immutable values; a hit is an undischarged obligation (→ failing-input search), not a verdict."""
+    import ast
+    import os
+    import argwrites
+    root = os.path.join(core.REPO, 'src', 'msmhelper')
+    hits, nfun = [], 0
+    for dp, _dn, fns in os.walk(root):
+        for f in sorted(fns):
+            if not f.endswith('.py'):
+                continue
+            path = os.path.join(dp, f)
+            try:
+                tree = ast.parse(open(path).read())
+            except SyntaxError as e:
+                hits.append('%s: %r' % (os.path.relpath(path, root), e))
+                continue
+            for n in ast.walk(tree):
+                if isinstance(n, (ast.FunctionDef, ast.AsyncFunctionDef)):
+                    nfun += 1
+                    for (ln, nm, what) in argwrites.arg_writes(n):
+                        hits.append('%s:%d %s(): argument `%s`: %s' % (os.path.relpath(path, root), ln, n.name, nm, what))
+    return [{'name': 'no function of src/msmhelper writes through a parameter (static alias analysis, harness/argwrites.py)', 'ok': not hits,
+             'functions_checked': nfun, 'detail': hits[:20]}]
+
+
 def cases(tier, rng, boost=1):
     # corpus: sampling on the shared object, then a deterministic model estimate at the same lag
     yield {'op': 'history', 'seed': 1, 'ops': [['msm_wt_obj', 1], ['est_obj', 2], ['seed', 3], ['mcmc_obj', 4], ['est_obj', 2], ['its_obj', 5]], 'src': 'corpus'}
